@@ -1004,6 +1004,10 @@ class Parser:
                     expanded, flen = self.expand_expression(
                         f"{mdf.name}->{fname}", len_str
                     )
+                    if int(flen) < 1:
+                        raise RTMASyntaxError(
+                            f"Array field length must be at least 1: {mdf.name}=> {fname}: {fstr} -> {self.current_file}"
+                        )
                     new_field = Field(
                         name=fname,
                         type_name=ftype,
